@@ -260,8 +260,8 @@ func (db *DB) basicExport(ctx context.Context, config *client.BackupConfig) (err
 				}
 			}
 
-			isSelfReference := false
-			refFieldName := ""
+			// the fields of the document that refer to the document itself
+			selfRefFieldNames := []string{}
 			// replace any foreign key if it needs to be changed
 			for _, field := range col.Schema().Fields {
 				if field.Kind.IsObject() && !field.Kind.IsArray() {
@@ -272,8 +272,7 @@ func (db *DB) basicExport(ctx context.Context, config *client.BackupConfig) (err
 								return err
 							}
 							if foreignKey.(string) == doc.ID().String() {
-								isSelfReference = true
-								refFieldName = field.Name + request.RelatedObjectID
+								selfRefFieldNames = append(selfRefFieldNames, field.Name+request.RelatedObjectID)
 							}
 						} else {
 							foreignDef, ok := client.GetDefinition(definitionCache, col.Definition(), field.Kind)
@@ -300,8 +299,7 @@ func (db *DB) basicExport(ctx context.Context, config *client.BackupConfig) (err
 							} else {
 								if foreignDoc.ID().String() == doc.ID().String() {
 									// self reference: the new docID is computed without the reference
-									isSelfReference = true
-									refFieldName = field.Name + request.RelatedObjectID
+									selfRefFieldNames = append(selfRefFieldNames, field.Name+request.RelatedObjectID)
 								} else {
 									newForeignDocID, err := db.exportedDocID(
 										ctx, definitionCache, foreignCol, foreignDoc, keyChangeCache, map[string]struct{}{})
@@ -325,7 +323,7 @@ func (db *DB) basicExport(ctx context.Context, config *client.BackupConfig) (err
 			}
 
 			delete(docM, request.DocIDFieldName)
-			if isSelfReference {
+			for _, refFieldName := range selfRefFieldNames {
 				delete(docM, refFieldName)
 			}
 
@@ -338,7 +336,7 @@ func (db *DB) basicExport(ctx context.Context, config *client.BackupConfig) (err
 			// NewDocFromMap removes the "_docID" map item so we add it back.
 			docM[request.DocIDFieldName] = doc.ID().String()
 
-			if isSelfReference {
+			for _, refFieldName := range selfRefFieldNames {
 				docM[refFieldName] = newDoc.ID().String()
 			}
 
